@@ -199,6 +199,35 @@ func EncodeBlock(payload []byte, level int) []byte {
 	return out
 }
 
+// EncodeBlockExtraFirst is EncodeBlock with another (well-formed) gzip extra subfield placed
+// BEFORE the BC subfield, which RFC 1952 and the BGZF definition allow.
+func EncodeBlockExtraFirst(payload []byte, level int) []byte {
+	m := EncodeBlock(payload, level)
+	sub := []byte{'X', 'Y', 3, 0, 'B', 'C', 2} // 7 bytes; its data even starts like the BC header
+	out := append([]byte(nil), m[:12]...)
+	out = append(out, sub...)
+	out = append(out, m[12:]...)
+	xlen := 6 + len(sub)
+	out[10], out[11] = byte(xlen), byte(xlen>>8)
+	bs := len(out) - 1
+	o := 12 + len(sub) + 4
+	out[o], out[o+1] = byte(bs), byte(bs>>8)
+	return out
+}
+
+// EncodeFileExtraFirst is EncodeFile with EncodeBlockExtraFirst members.
+func EncodeFileExtraFirst(blocks [][]byte, level int, marker bool) (file []byte, bases []int64) {
+	for _, p := range blocks {
+		bases = append(bases, int64(len(file)))
+		file = append(file, EncodeBlockExtraFirst(p, level)...)
+	}
+	bases = append(bases, int64(len(file)))
+	if marker {
+		file = append(file, EOFMarker...)
+	}
+	return file, bases
+}
+
 // EncodeFile builds a BGZF file from payload blocks, with or without the EOF marker.
 func EncodeFile(blocks [][]byte, level int, marker bool) (file []byte, bases []int64) {
 	for _, p := range blocks {
